@@ -323,9 +323,12 @@ class SourceCatalog:
         self._mask = self._validate_array(mask, 'mask')
         self._background = self._validate_array(background, 'background')
         if (self._background is not None
-                and self._background.dtype.kind != 'f'):
-            # the background is interpolated (and set to NaN) at the
-            # source centroids, which an integer array cannot represent
+                and self._background.dtype != np.float64):
+            # the background is summed over the segments and
+            # interpolated (and set to NaN) at the source centroids:
+            # an integer array cannot represent the result and a
+            # float16/float32 array would be summed in its own narrow
+            # precision (float16 is not interpolated at all)
             self._background = self._background.astype(float)
         self.wcs = wcs
         self.localbkg_width = self._validate_localbkg_width(localbkg_width)
